@@ -213,7 +213,7 @@ impl Property for C19 {
     }
 
     fn budget(tier: Tier) -> u64 {
-        tier.pick(16_000, 200_000)
+        tier.pick(16_000, 150_000)
     }
 
     fn rule() -> &'static str {
